@@ -385,6 +385,7 @@ class FnTranslator:
         self.oracles, self.oracle_kw = [], {}
         self.oracle_once = set()
         self.constructors = set()
+        self.fresh_oracles = set()
         self.picks = list(spec.get("picks", []))       # random.choice-like: f(xs) = xs[k], k a fresh Section variable per call site
         self.fixed = dict(spec.get("fixed", {}))
         for entry in spec.get("oracles", []):
@@ -394,6 +395,8 @@ class FnTranslator:
                     self.oracle_once.add(o)
                 elif entry[3] == "constructor":      # a pure function of the VALUE of its arguments that keeps a
                     self.constructors.add(o)         # reference to them: a mutated list must not escape into it
+                elif entry[3] == "fresh":            # a pure function that returns a NEW list on every call
+                    self.fresh_oracles.add(o)        # (np.zeros(n)): the result may be modified in place
                 else:
                     raise Unsupported("oracle flag %r in the spec" % entry[3], node, self.qual)
             kws = [a.split("=")[0].strip() if "=" in a else None for a in args]
@@ -705,8 +708,16 @@ class FnTranslator:
             for a, _ in self.writes:
                 base = a.split(".")[0].split("[")[0]
                 if env.get(base) == t and a[len(base):].lstrip(".") == f:
-                    raise self.err("field %s of a %s is written by this function through %s and read here through "
-                                   "another expression (it may be the same object)" % (f, t, base), n)
+                    # the other expression may denote the same object: its field is the accessor's value (the value
+                    # at entry) only as long as no write to the field can have happened, i.e. every write follows
+                    # this read in the source and no loop around this read contains one
+                    wl = self.write_lines.get(attr_var(a), [])
+                    in_loop = any(body[0].lineno <= ln <= max(getattr(x, "end_lineno", 0) or 0 for y in body for x in ast.walk(y))
+                                  for body in self.loop_stack for ln in wl)
+                    if any(ln <= n.lineno for ln in wl) or in_loop:
+                        raise self.err("field %s of a %s is written by this function through %s and read here through "
+                                       "another expression (it may be the same object) after / in a loop with a write"
+                                       % (f, t, base), n)
             if (t, f) not in self.used_acc:
                 self.used_acc.append((t, f))
             code, t, steps = "(%s %s)" % (self.acc_name(t, f), code), ft, steps[k:]
@@ -1052,7 +1063,7 @@ class FnTranslator:
             return self.block(rest, env, ctx, k)          # docstring
         if isinstance(s, ast.Pass):
             return self.block(rest, env, ctx, k)
-        if isinstance(s, ast.Expr) and self.skip and ast.unparse(s) in self.skip:
+        if isinstance(s, (ast.Expr, ast.Assign, ast.AugAssign, ast.Delete)) and self.skip and ast.unparse(s) in self.skip:
             # a statement the spec designates as NOT translated (an effect on other objects that the result
             # of the translated function does not contain); counted in _translate, listed in the generated file
             return self.block(rest, env, ctx, k)
@@ -1153,9 +1164,10 @@ class FnTranslator:
         inner = "let %s := %s in\n%s" % (mangle(name), c, self.block(rest, env2, ctx, k))
         return self.wrap(pre, inner, ctx, env)
 
-    @staticmethod
-    def fresh_list_expr(v):
+    def fresh_list_expr(self, v):
         """expressions that build a new list object"""
+        if isinstance(v, ast.Call) and dotted(v.func) in self.fresh_oracles:
+            return True
         if isinstance(v, (ast.List, ast.ListComp)):
             return True
         if isinstance(v, ast.Call) and dotted(v.func) == "list" and len(v.args) == 1:
@@ -1623,16 +1635,23 @@ class FnTranslator:
         write_vars = {attr_var(a): t for a, t in self.writes}
         # statements the spec designates as not translated: each must occur exactly as often as declared
         for txt, cnt in self.skip.items():
-            found = sum(1 for st_ in ast.walk(self.node) if isinstance(st_, ast.Expr) and ast.unparse(st_) == txt)
+            found = sum(1 for st_ in ast.walk(self.node) if isinstance(st_, (ast.Expr, ast.Assign, ast.AugAssign, ast.Delete))
+                        and ast.unparse(st_) == txt)
             if found != cnt:
                 raise self.err("the skipped statement `%s` occurs %d times (the spec says %d)" % (txt, found, cnt), self.node)
         self.skipped = dict(self.skip)
         # lists that are modified in place (append / extend / remove / del / item assignment) must be built in
         # this function by every assignment to them, or be an in-out parameter / attribute listed under `writes`
-        self.appended, self.append_lines = set(), {}
+        self.appended, self.append_lines, self.write_lines = set(), {}, {}
         for st_ in ast.walk(self.node):
             a = mutation_of(st_) if isinstance(st_, ast.stmt) else None
-            if a and not (isinstance(st_, ast.Expr) and ast.unparse(st_) in self.skip):
+            if isinstance(st_, (ast.Assign, ast.AugAssign)) and not ast.unparse(st_) in self.skip:
+                for tg in (st_.targets if isinstance(st_, ast.Assign) else [st_.target]):
+                    if isinstance(tg, (ast.Attribute, ast.Subscript)) and attr_key(tg):
+                        self.write_lines.setdefault(attr_var(attr_key(tg)), []).append(st_.lineno)
+            if a and not ast.unparse(st_) in self.skip:
+                if attr_key(a[1]):
+                    self.write_lines.setdefault(attr_var(attr_key(a[1])), []).append(st_.lineno)
                 key = attr_key(a[1])
                 if key is None:
                     raise self.err("in-place modification of a computed target", st_)
